@@ -502,6 +502,17 @@ fn sched(args: &Args, b: &mut Batcher, rng: &mut SmallRng) {
         let mut prog = vec![push(3), by("ALOC"), by("POP"), push(breadth), by("COM")];
         prog.extend([by("DUP"), push(TICK), push(2), push(0), push(0), by("KRNG")]);
         prog.extend([by("DUP"), push(1), by("ADD"), by("ALOC"), by("POP"), by("DUP"), by("DUP"), by("STO")]);
+        // every child asks PredicateExists (first use initialises the cache shared by all children):
+        // a hit for the second solution's data hash, a miss for a perturbed one
+        {
+            let base_cfg = std_cfg(vec![], Snap::default());
+            let h = crate::run::pex_hashes(&base_cfg.sols)[1];
+            for w in h {
+                prog.push(push(w));
+            }
+            prog.extend([by("PEX"), by("POP")]);
+            prog.extend([push(h[0]), push(h[1]), push(h[2] ^ 1), push(h[3]), by("PEX"), by("POP")]);
+        }
         match mode {
             0 => prog.extend([by("DUP"), push(special), by("EQ"), by("HLTIF")]),
             1 => prog.extend([by("DUP"), push(special), by("EQ"), by("PNCIF")]),
